@@ -52,8 +52,23 @@ def coq_cost(kind, p):
 
 
 def blist(hexs):
+    """a byte string as a Gallina term: 32 bytes per number (Digest.unpack)"""
     b = bytes.fromhex(hexs)
-    return "[" + "; ".join(str(x) for x in b) + "]"
+    if len(b) <= 4:
+        return "[" + "; ".join(str(x) for x in b) + "]"
+    words = [b[i:i + 32] for i in range(0, len(b), 32)]
+    return "(unpack (N.to_nat %d) [%s])" % (len(b), "; ".join("0x" + w.hex() for w in words))
+
+
+def unpacked(t):
+    """inverse of Digest.pack on the parsed answer (len, words)"""
+    n, words = t
+    out = b""
+    for i, w in enumerate(words):
+        k = 32 if i < len(words) - 1 else n - 32 * (len(words) - 1)
+        out += int(w).to_bytes(k, "big")
+    assert len(out) == n, (n, len(out))
+    return out
 
 
 def sigmap_bytes(sm):
@@ -100,8 +115,29 @@ def policy_v1(d):
 
 
 def run(ctx):
+    if getattr(ctx, "replay", None):
+        # every stream is a deterministic function of the seed: re-run with the seed named in the replay file
+        try:
+            rp = json.load(open(ctx.replay))
+            h = rp.get("replay", {}).get("harness", "")
+            parts = h.split()
+            if len(parts) == 4 and parts[0] == "c06":
+                ctx.seed = int(parts[2])
+            ctx.log("replaying %s (seed %d): %s" % (ctx.replay, ctx.seed, rp.get("summary", "")[:200]))
+        except (OSError, ValueError) as e:
+            ctx.log("cannot read replay file: %r" % (e,))
+    # at most 3 reports per kind of violation (the rest is counted in evidence)
+    _report, _counts = ctx.violation, {}
+
+    def limited(replay, summary, no_input=False):
+        key = summary[:48]
+        _counts[key] = _counts.get(key, 0) + 1
+        if _counts[key] <= 3:
+            _report(replay, summary, no_input)
+        ctx.notes["violation_counts"] = dict(_counts)
+    ctx.violation = limited
     kf = c.load_known_findings()
-    known_ids = {f["id"] for f in kf["findings"] if f["property"] == "C06"}
+    known_ids ={f["id"] for f in kf["findings"] if f["property"] == "C06"}
     ctx.assumptions += [
         "PARTIAL: 'changing any bit of header/payload/signatures/keys makes verification fail' is relative to SHA-256 collision "
         "resistance and ed25519 unforgeability; the theorem states the explicit disjunction (collision or a signature valid on two digests), "
@@ -138,6 +174,14 @@ def run(ctx):
 
     # ---------------------------------------------------------------- 3. build
     ok, binp = c.cargo_build(ctx, "c06")
+    tries = 0
+    while (not ok and tries < 9 and "failed to load manifest for workspace member" in binp
+           and "/harness/c06" not in binp.split("failed to load manifest for workspace member")[1][:200]):
+        # another property's harness crate is being created in the shared workspace right now: wait for it
+        import time
+        time.sleep(20)
+        tries += 1
+        ok, binp = c.cargo_build(ctx, "c06")
     if not ok:
         ctx.violation({"layer": "harness build against /repo", "error": binp},
                       "harness no longer builds against the implementation", no_input=True)
@@ -149,6 +193,11 @@ def run(ctx):
 
     seen_nontrivial = set()
     evaluations = 0
+    lazy_exprs, lazy_todo = [], []
+
+    def later(exprs, fn):
+        lazy_todo.append((len(lazy_exprs), len(exprs), fn))
+        lazy_exprs.extend(exprs)
 
     def run_pipe(mode, n, distinct):
         rc, out = c.sh(["bash", "-c", "set -o pipefail; %s %s %d %d | %s %s" % (
@@ -191,7 +240,7 @@ def run(ctx):
 
     # ---------------------------------------------------------------- 5. sampled stream (+ v1)
     ctx.log("sampled stream")
-    n_s = 1500 if ctx.quick else 40000
+    n_s = 1500 if ctx.quick else 12000
     rc, stats_s, mism, samples, other, raw = run_pipe("samp", n_s, True)
     if rc != 0 or stats_s is None:
         ctx.violation({"layer": "sampled stream", "output": raw[-2000:]}, "sampled harness/model pipeline crashed", no_input=True)
@@ -204,36 +253,39 @@ def run(ctx):
     v1 = [o for o in other if o.get("k") == "v1"]
     exprs = ["verify_v1_bits %s %s %s %s" % (access_term(d["sender"]), access_term(d["sponsor"]), bits_term(d["ssig"]),
                                              "None" if d["psig"] is None else "(Some %s)" % bits_term(d["psig"])) for d in v1]
-    terms = c.coq_eval(ctx, "v1", PRE, exprs, shard=max(20, len(exprs) // 16 + 1))
     v1_dist = {"accept": 0, "reject": 0, "sponsored": 0, "sponsor_sig_missing": 0}
-    for d, t in zip(v1, terms):
-        m = "1" if t == "true" else "0"
-        evaluations += 1
-        v1_dist["accept" if m == "1" else "reject"] += 1
-        v1_dist["sponsored"] += 1 if d["hdr_sponsor"] else 0
-        if m == "1":
-            seen_nontrivial.add(c.digest(["v1", d["sender"], d["ssig"], d["psig"]]))
-        if not d["hash_ok"]:
-            ctx.violation({"case": d}, "compute_transaction_sign_hash_v1 is not SHA256(prefix || header || payload)")
-        if d["r"] != m or d["r_hash"] != m:
-            ctx.violation({"harness": "c06 samp %d %d" % (ctx.seed, n_s), "case": d, "model": m,
-                           "theorem": "verify_v1_iff_policy"},
-                          "AccountTransactionV1::verify_transaction_signature disagrees with the model (impl %s/%s, model %s)" % (d["r"], d["r_hash"], m))
-            continue
-        # the property's reading (sponsor must sign a sponsored transaction)
-        want = policy_v1(d)
-        if (d["r"] == "1") != want:
-            if d["hdr_sponsor"] and d["psig"] is None and d["r"] == "1" and "KF-C06-1" in known_ids:
-                v1_dist["sponsor_sig_missing"] += 1
-                ctx.known_finding("KF-C06-1", "AccountTransactionV1::verify_transaction_signature accepts a transaction whose header names a "
-                                  "sponsor but that carries no sponsor signature (theorem sponsored_requires_sponsor_signature_refuted)")
-            else:
-                ctx.violation({"case": d, "policy": want}, "v1 verification differs from the threshold policy for sender and sponsor")
+
+    def post_v1(terms):
+      nonlocal evaluations
+      for d, t in zip(v1, terms):
+          m = "1" if t == "true" else "0"
+          evaluations += 1
+          v1_dist["accept" if m == "1" else "reject"] += 1
+          v1_dist["sponsored"] += 1 if d["hdr_sponsor"] else 0
+          if m == "1":
+              seen_nontrivial.add(c.digest(["v1", d["sender"], d["ssig"], d["psig"]]))
+          if not d["hash_ok"]:
+              ctx.violation({"case": d}, "compute_transaction_sign_hash_v1 is not SHA256(prefix || header || payload)")
+          if d["r"] != m or d["r_hash"] != m:
+              ctx.violation({"harness": "c06 samp %d %d" % (ctx.seed, n_s), "case": d, "model": m,
+                             "theorem": "verify_v1_iff_policy"},
+                            "AccountTransactionV1::verify_transaction_signature disagrees with the model (impl %s/%s, model %s)" % (d["r"], d["r_hash"], m))
+              continue
+          # the property's reading (sponsor must sign a sponsored transaction)
+          want = policy_v1(d)
+          if (d["r"] == "1") != want:
+              if d["hdr_sponsor"] and d["psig"] is None and d["r"] == "1" and "KF-C06-1" in known_ids:
+                  v1_dist["sponsor_sig_missing"] += 1
+                  ctx.known_finding("KF-C06-1", "AccountTransactionV1::verify_transaction_signature accepts a transaction whose header names a "
+                                    "sponsor but that carries no sponsor signature (theorem sponsored_requires_sponsor_signature_refuted)")
+              else:
+                  ctx.violation({"case": d, "policy": want}, "v1 verification differs from the threshold policy for sender and sponsor")
+    later(exprs, post_v1)
     ctx.notes["v1_distribution"] = v1_dist
 
     # ---------------------------------------------------------------- 6. builders, digests, energy
     ctx.log("builders")
-    n_t = 64 if ctx.quick else 1600
+    n_t = 64 if ctx.quick else 1200
     rc, out = c.run_bin(binp, ["tx", ctx.seed, n_t], timeout=1800)
     if rc != 0:
         ctx.violation({"layer": "harness run", "output": out[-2000:]}, "tx harness crashed", no_input=True)
@@ -279,57 +331,63 @@ def run(ctx):
         for d in txs:
             en = "(builder_energy %s (len %s) %d)" % (coq_cost(d["kind"], d["params"]), blist(d["payload"]), d["num_sigs"])
             h = d["header"]
-            exprs.append("(%s, block_item_v0 %s (construct_header %s %s %s %s %s) %s)" % (
+            exprs.append("(%s, pack (block_item_v0 %s (construct_header %s %s %s %s %s) %s))" % (
                 en, sigmap_bytes(d["sigs"]), blist(h["sender"]), h["nonce"], h["expiry"], blist(d["payload"]), en, blist(d["payload"])))
-        terms = c.coq_eval(ctx, "tx", PRE, exprs, shard=max(4, len(exprs) // 16 + 1))
-        for d, t in zip(txs, terms):
-            evaluations += 1
-            m_energy, m_bi = t
-            payload = bytes.fromhex(d["payload"])
-            tail = bytes(m_bi[len(m_bi) - 60 - len(payload):])
-            probs = []
-            if m_energy != int(d["header"]["energy"]):
-                probs.append("energy: model %d (builder_energy, Gen/TxCost.v) vs implementation %s" % (m_energy, d["header"]["energy"]))
-            if tail[:60].hex() != d["header_bytes"]:
-                probs.append("header bytes: model %s vs implementation %s" % (tail[:60].hex(), d["header_bytes"]))
-            if sha(tail) != d["sign_hash"]:
-                probs.append("SHA256(model preimage_v0) != implementation sign hash")
-            if sha(m_bi) != d["bi_hash"]:
-                probs.append("SHA256(model block_item_v0) != BlockItem::hash")
-            for p in probs:
-                ctx.violation({"harness": "c06 tx %d %d" % (ctx.seed, n_t), "builder": "construct::" + d["kind"], "params": d["params"],
-                               "num_sigs": d["num_sigs"], "header": d["header"], "payload": d["payload"], "problem": p,
-                               "theorem": "energy_formula / declared_size_correct / digest model"},
-                              "construct::%s disagrees with the model: %s" % (d["kind"], p))
-            if not probs:
-                seen_nontrivial.add(c.digest(["tx", d["kind"], d["header"], d["payload"][:64], d["num_sigs"]]))
+
+        def post_tx(terms):
+            nonlocal evaluations
+            for d, t in zip(txs, terms):
+                evaluations += 1
+                m_energy, m_bi = t[0], unpacked(t[1])
+                payload = bytes.fromhex(d["payload"])
+                tail = m_bi[len(m_bi) - 60 - len(payload):]
+                probs = []
+                if m_energy != int(d["header"]["energy"]):
+                    probs.append("energy: model %d (builder_energy, Gen/TxCost.v) vs implementation %s" % (m_energy, d["header"]["energy"]))
+                if tail[:60].hex() != d["header_bytes"]:
+                    probs.append("header bytes: model %s vs implementation %s" % (tail[:60].hex(), d["header_bytes"]))
+                if sha(tail) != d["sign_hash"]:
+                    probs.append("SHA256(model preimage_v0) != implementation sign hash")
+                if sha(m_bi) != d["bi_hash"]:
+                    probs.append("SHA256(model block_item_v0) != BlockItem::hash")
+                for p in probs:
+                    ctx.violation({"harness": "c06 tx %d %d" % (ctx.seed, n_t), "builder": "construct::" + d["kind"], "params": d["params"],
+                                   "num_sigs": d["num_sigs"], "header": d["header"], "payload": d["payload"], "problem": p,
+                                   "theorem": "energy_formula / declared_size_correct / digest model"},
+                                  "construct::%s disagrees with the model: %s" % (d["kind"], p))
+                if not probs:
+                    seen_nontrivial.add(c.digest(["tx", d["kind"], d["header"], d["payload"][:64], d["num_sigs"]]))
+        later(exprs, post_tx)
         exprs = []
         for d in v1tx:
             h = header_term(d["header"])
             h1 = "(match add_sponsor A (extend_header %s) %s %d with Some x => x | None => extend_header %s end)" % (h, blist(d["sponsor"]), d["num_sponsor_sigs"], h)
-            exprs.append("(h_energy (h1_base %s), preimage_v1 (extend_header %s) %s, preimage_v1 %s %s, block_item_v1 %s (Some %s) %s %s)" % (
+            exprs.append("(h_energy (h1_base %s), pack (preimage_v1 (extend_header %s) %s), pack (preimage_v1 %s %s), pack (block_item_v1 %s (Some %s) %s %s))" % (
                 h1, h, blist(d["payload"]), h1, blist(d["payload"]), sigmap_bytes(d["ssig"]), sigmap_bytes(d["psig"]), h1, blist(d["payload"])))
-        terms = c.coq_eval(ctx, "v1tx", PRE, exprs, shard=max(4, len(exprs) // 16 + 1))
-        for d, t in zip(v1tx, terms):
-            evaluations += 1
-            m_energy, m_pre_ext, m_pre, m_bi = t
-            probs = []
-            want = int(d["base_energy"]) + 2 + 32 + 100 * d["num_sponsor_sigs"]
-            if int(d["energy"]) != want or int(d["ext_energy"]) != int(d["base_energy"]) + 2 or m_energy != int(d["energy"]):
-                probs.append("sponsored energy %s (extend %s), documented %d, model %d" % (d["energy"], d["ext_energy"], want, m_energy))
-            if sha(m_pre_ext) != d["ext_sign_hash"] or d["ext_sha_indep"] != d["ext_sign_hash"]:
-                probs.append("extend(): sign hash v1 is not SHA256(prefix || header_v1 || payload)")
-            if sha(m_pre) != d["sign_hash"] or d["sha_indep"] != d["sign_hash"]:
-                probs.append("add_sponsor(): sign hash v1 is not SHA256(prefix || header_v1 || payload)")
-            if sha(m_bi) != d["bi_hash"] or d["bi_hash"] != d["bi_sha_indep"]:
-                probs.append("BlockItem::hash (v1) is not SHA256(model block_item_v1)")
-            if d["verifies"] != "1" or not d["second_add_sponsor_rejected"]:
-                probs.append("sponsored transaction signed by sender and sponsor does not verify / second add_sponsor accepted")
-            for p in probs:
-                ctx.violation({"harness": "c06 tx %d %d" % (ctx.seed, n_t), "case": {k: d[k] for k in ("header", "sponsor", "num_sponsor_sigs", "energy", "payload")},
-                               "problem": p, "theorem": "sponsored_energy / digest model"}, "sponsored builder: %s" % p)
-            if not probs:
-                seen_nontrivial.add(c.digest(["v1tx", d["header"], d["sponsor"], d["num_sponsor_sigs"]]))
+
+        def post_v1tx(terms):
+            nonlocal evaluations
+            for d, t in zip(v1tx, terms):
+                evaluations += 1
+                m_energy, m_pre_ext, m_pre, m_bi = t[0], unpacked(t[1]), unpacked(t[2]), unpacked(t[3])
+                probs = []
+                want = int(d["base_energy"]) + 2 + 32 + 100 * d["num_sponsor_sigs"]
+                if int(d["energy"]) != want or int(d["ext_energy"]) != int(d["base_energy"]) + 2 or m_energy != int(d["energy"]):
+                    probs.append("sponsored energy %s (extend %s), documented %d, model %d" % (d["energy"], d["ext_energy"], want, m_energy))
+                if sha(m_pre_ext) != d["ext_sign_hash"] or d["ext_sha_indep"] != d["ext_sign_hash"]:
+                    probs.append("extend(): sign hash v1 is not SHA256(prefix || header_v1 || payload)")
+                if sha(m_pre) != d["sign_hash"] or d["sha_indep"] != d["sign_hash"]:
+                    probs.append("add_sponsor(): sign hash v1 is not SHA256(prefix || header_v1 || payload)")
+                if sha(m_bi) != d["bi_hash"] or d["bi_hash"] != d["bi_sha_indep"]:
+                    probs.append("BlockItem::hash (v1) is not SHA256(model block_item_v1)")
+                if d["verifies"] != "1" or not d["second_add_sponsor_rejected"]:
+                    probs.append("sponsored transaction signed by sender and sponsor does not verify / second add_sponsor accepted")
+                for p in probs:
+                    ctx.violation({"harness": "c06 tx %d %d" % (ctx.seed, n_t), "case": {k: d[k] for k in ("header", "sponsor", "num_sponsor_sigs", "energy", "payload")},
+                                   "problem": p, "theorem": "sponsored_energy / digest model"}, "sponsored builder: %s" % p)
+                if not probs:
+                    seen_nontrivial.add(c.digest(["v1tx", d["header"], d["sponsor"], d["num_sponsor_sigs"]]))
+        later(exprs, post_v1tx)
     ctx.notes["builder_distribution"] = kinds
     ctx.notes["builders_not_exercised"] = ["encrypted_transfer", "encrypted_transfer_with_memo", "transfer_to_public", "add_baker",
                                            "update_baker_keys", "update_credential_keys", "update_credentials"]
@@ -345,6 +403,7 @@ def run(ctx):
         return
     pert = [json.loads(l) for l in out.splitlines() if l.startswith("{")]
     classes = {}
+    survived = {}
     for d in pert:
         evaluations += len(d["rejected"]) + 1
         if not d["base_ok"] or (d["v"] == 0 and not d["all_keys_sign_ok"]):
@@ -352,8 +411,11 @@ def run(ctx):
         for name, rej in d["rejected"]:
             classes[name] = classes.get(name, 0) + 1
             if not rej:
-                ctx.violation({"harness": "c06 pert %d %d" % (ctx.seed, n_p), "perturbation": name, "version": d["v"]},
-                              "verification survives the perturbation `%s`" % name)
+                survived[name] = survived.get(name, 0) + 1
+                if survived[name] == 1:
+                    ctx.violation({"harness": "c06 pert %d %d" % (ctx.seed, n_p), "perturbation": name, "version": d["v"],
+                                   "case_index": pert.index(d)},
+                                  "verification survives the perturbation `%s`" % name)
         if d["v"] == 1 and not d["sponsor_sig_dropped_rejected"]:
             if "KF-C06-1" in known_ids:
                 ctx.known_finding("KF-C06-1", "AccountTransactionV1::verify_transaction_signature accepts a transaction whose header names a "
@@ -362,10 +424,12 @@ def run(ctx):
                 ctx.violation({"harness": "c06 pert %d %d" % (ctx.seed, n_p), "perturbation": "sponsor signature removed, header.sponsor kept"},
                               "a sponsored transaction without sponsor signature verifies")
     ctx.notes["perturbation_classes"] = classes
+    if survived:
+        ctx.notes["perturbations_survived"] = survived
 
     # ---------------------------------------------------------------- 8. updates
     ctx.log("updates")
-    n_u = 300 if ctx.quick else 8000
+    n_u = 300 if ctx.quick else 6000
     rc, out = c.run_bin(binp, ["upd", ctx.seed, n_u], timeout=1800)
     if rc != 0:
         ctx.violation({"layer": "harness run", "output": out[-2000:]}, "update harness crashed", no_input=True)
@@ -376,53 +440,63 @@ def run(ctx):
         acc = "(mkAS [%s] %d)" % ("; ".join(str(x) for x in d["acc"]["auth"]), d["acc"]["t"])
         exprs.append("find_authorized_ids [%s] %s [%s]" % ("; ".join(map(str, d["keys"])), acc, "; ".join(map(str, d["actual"]))))
         if "sig_bits" in d:
-            exprs.append("(update_verify_bits %d %s [%s], block_item_update (mkUpdateHeader %s %s %s %d) %s [%s])" % (
+            exprs.append("(update_verify_bits %d %s [%s], pack (block_item_update (mkUpdateHeader %s %s %s %d) %s [%s]))" % (
                 d["nkeys"], acc, "; ".join("(%d, %s)" % (i, "true" if b else "false") for i, b in d["sig_bits"]),
                 d["uh"]["seq"], d["uh"]["eff"], d["uh"]["tmo"], d["uh"]["payload_size"], blist(d["payload"]),
                 "; ".join("(%d, %s)" % (i, blist(s)) for i, s in d["sigs"])))
-    terms = c.coq_eval(ctx, "upd", PRE, exprs, shard=max(10, len(exprs) // 16 + 1))
-    ti = 0
     ud = {"signer_none": 0, "signer_some": 0, "ref_accept": 0, "ref_reject": 0, "v0": 0, "v1": 0}
-    for d in upd:
-        evaluations += 1
-        ud["v%d" % d["version"]] += 1
-        t = terms[ti]
-        ti += 1
-        model_signer = None if t == "None" else [list(x) for x in t[1]]
-        if d["signer"] == "PANIC" or model_signer != d["signer"]:
-            ctx.violation({"harness": "c06 upd %d %d" % (ctx.seed, n_u), "keys": d["keys"], "access_structure": d["acc"], "actual_keys": d["actual"],
-                           "impl": d["signer"], "model": model_signer, "theorem": "find_authorized_keys_sound / update_sign_sufficient_verifies"},
-                          "find_authorized_keys (Authorizations%s::construct_update_signer) disagrees with the model" % ("V1" if d["version"] else "V0"))
-        ud["signer_none" if d["signer"] is None else "signer_some"] += 1
-        if "sig_bits" not in d:
-            continue
-        m_acc, m_bi = terms[ti]
-        ti += 1
-        evaluations += 1
-        probs = []
-        if (m_acc == "true") != d["ref_accept"]:
-            probs.append("reference rule evaluated with real keys (%s) != model update_verify (%s)" % (d["ref_accept"], m_acc))
-        ud["ref_accept" if d["ref_accept"] else "ref_reject"] += 1
-        hb, pb = bytes.fromhex(d["header_bytes"]), bytes.fromhex(d["payload"])
-        if bytes(m_bi[1:1 + len(hb) + len(pb)]) != hb + pb or sha(m_bi[1:1 + len(hb) + len(pb)]) != d["sha_indep"]:
-            probs.append("update header/payload bytes differ from the model's preimage_update")
-        if sha(m_bi) != d["bi_hash"] or d["bi_hash"] != d["bi_sha_indep"]:
-            probs.append("BlockItem::hash of the update instruction is not SHA256(model block_item_update)")
-        if d["uh"]["payload_size"] != len(pb) or not d["payload_is_encoding"] or not d["decoded_ok"]:
-            probs.append("declared update payload size / encoding wrong")
-        if not d["corrupted"]:
-            if not all(b == 1 for _, b in d["sig_bits"]):
-                probs.append("a signature made by update::update is not valid for SHA256(header || payload) under keys[index]")
-            if len(d["actual"]) >= d["acc"]["t"] and not d["ref_accept"]:
-                probs.append("signing with >= threshold authorised keys is not accepted by the reference rule")
-        if not d["perturbed_dead"]:
-            probs.append("a signature survives a flipped byte of the update header / payload")
-        for p in probs:
-            ctx.violation({"harness": "c06 upd %d %d" % (ctx.seed, n_u), "keys": d["keys"], "access_structure": d["acc"], "actual_keys": d["actual"],
-                           "update_header": d["uh"], "payload": d["payload"], "problem": p, "theorem": "update_verify_iff_policy / update_sign_sufficient_verifies"},
-                          "update instruction: %s" % p)
-        if not probs and d["ref_accept"]:
-            seen_nontrivial.add(c.digest(["upd", d["keys"], d["acc"], d["actual"], d["uh"]]))
+
+    def post_upd(terms):
+        nonlocal evaluations
+        ti = 0
+        for d in upd:
+            evaluations += 1
+            ud["v%d" % d["version"]] += 1
+            t = terms[ti]
+            ti += 1
+            model_signer = None if t == "None" else [list(x) for x in t[1]]
+            if d["signer"] == "PANIC" or model_signer != d["signer"]:
+                ctx.violation({"harness": "c06 upd %d %d" % (ctx.seed, n_u), "keys": d["keys"], "access_structure": d["acc"], "actual_keys": d["actual"],
+                               "impl": d["signer"], "model": model_signer, "theorem": "find_authorized_keys_sound / update_sign_sufficient_verifies"},
+                              "find_authorized_keys (Authorizations%s::construct_update_signer) disagrees with the model" % ("V1" if d["version"] else "V0"))
+            ud["signer_none" if d["signer"] is None else "signer_some"] += 1
+            if "sig_bits" not in d:
+                continue
+            m_acc, m_bi = terms[ti][0], unpacked(terms[ti][1])
+            ti += 1
+            evaluations += 1
+            probs = []
+            if (m_acc == "true") != d["ref_accept"]:
+                probs.append("reference rule evaluated with real keys (%s) != model update_verify (%s)" % (d["ref_accept"], m_acc))
+            ud["ref_accept" if d["ref_accept"] else "ref_reject"] += 1
+            hb, pb = bytes.fromhex(d["header_bytes"]), bytes.fromhex(d["payload"])
+            if m_bi[1:1 + len(hb) + len(pb)] != hb + pb or sha(m_bi[1:1 + len(hb) + len(pb)]) != d["sha_indep"]:
+                probs.append("update header/payload bytes differ from the model's preimage_update")
+            if sha(m_bi) != d["bi_hash"] or d["bi_hash"] != d["bi_sha_indep"]:
+                probs.append("BlockItem::hash of the update instruction is not SHA256(model block_item_update)")
+            if d["uh"]["payload_size"] != len(pb) or not d["payload_is_encoding"] or not d["decoded_ok"]:
+                probs.append("declared update payload size / encoding wrong")
+            if not d["corrupted"]:
+                if not all(b == 1 for _, b in d["sig_bits"]):
+                    probs.append("a signature made by update::update is not valid for SHA256(header || payload) under keys[index]")
+                if len(d["actual"]) >= d["acc"]["t"] and not d["ref_accept"]:
+                    probs.append("signing with >= threshold authorised keys is not accepted by the reference rule")
+            if not d["perturbed_dead"]:
+                probs.append("a signature survives a flipped byte of the update header / payload")
+            for p in probs:
+                ctx.violation({"harness": "c06 upd %d %d" % (ctx.seed, n_u), "keys": d["keys"], "access_structure": d["acc"], "actual_keys": d["actual"],
+                               "update_header": d["uh"], "payload": d["payload"], "problem": p, "theorem": "update_verify_iff_policy / update_sign_sufficient_verifies"},
+                              "update instruction: %s" % p)
+            if not probs and d["ref_accept"]:
+                seen_nontrivial.add(c.digest(["upd", d["keys"], d["acc"], d["actual"], d["uh"]]))
+    later(exprs, post_upd)
+
+    # ---------------------------------------------------------------- 9. one model evaluation for all deferred cases
+    ctx.log("model evaluation of %d deferred expressions" % len(lazy_exprs))
+    if lazy_exprs:
+        terms = c.coq_eval(ctx, "all", PRE, lazy_exprs, shard=max(8, len(lazy_exprs) // 16 + 1))
+        for start, cnt, fn in lazy_todo:
+            fn(terms[start:start + cnt])
     ctx.notes["update_distribution"] = ud
     upd_some = [d for d in upd if "sig_bits" in d]
     if upd_some:
